@@ -554,6 +554,13 @@ def binder_cases():
     yield 'def-nested-call', ('arrow', f, ('call', 'f', [('call', 'f', [t(2, one)], [])], []))
     yield 'def-two-args', ('arrow', ('call', 'def', [('lit', 'f'), t(1, ('var', '2'))], []),
                            ('call', 'f', [t(2, one), t(3, two)], []))
+    # a function / delegate without parameters is re-evaluated at every call
+    f0 = ('call', 'def', [('lit', 'f'), t(1, one)], [])
+    yield 'def-no-args-called-twice', ('arrow', f0, ('list', [('call', 'f', [], []), ('call', 'f', [], [])]))
+    yield 'def-no-args-called-three-times', ('arrow', f0, ('list', [('call', 'f', [], []), t(2, two), ('call', 'f', [], []), ('call', 'f', [], [])]))
+    yield 'def-no-args-per-element', ('arrow', f0, ('meth', lst, 'select', [('call', 'f', [], [])]))
+    g0 = ('call', 'let', [], [['g', ('call', 'lambda', [t(3, one)], [])]])
+    yield 'lambda-no-args-called-three-times', ('arrow', g0, ('list', [('dcall', ('var', 'g'), []), ('dcall', ('var', 'g'), []), ('dcall', ('var', 'g'), [])]))
     yield 'def-keyword-arg', ('arrow', ('call', 'def', [('lit', 'f'), t(1, x)], []), ('call', 'f', [t(2, one)], [['x', t(3, two)]]))
     yield 'lambda-call', ('dcall', ('call', 'lambda', [t(1, ('var', ''))], []), [t(2, one)])
     yield 'lambda-uncalled', ('list', [t(1, one), ('call', 'len', [('list', [('call', 'lambda', [t(2, one)], [])])], [])])
